@@ -264,3 +264,410 @@ def replay_to(case, model, rec):
         if not ok or not np.array_equal(a.values, before) or str(r.unit) != str(osy.units("cm")):
             return {"reproduced": True, "input": {"dtype": dtype, "values": before.tolist()}, "observed": detail}
     return {"reproduced": False}
+
+
+CMPOPS = {"__lt__": operator.lt, "__le__": operator.le, "__gt__": operator.gt, "__ge__": operator.ge,
+          "__eq__": operator.eq, "__ne__": operator.ne,
+          "less": operator.lt, "less_equal": operator.le, "greater": operator.gt, "greater_equal": operator.ge,
+          "equal": operator.eq, "not_equal": operator.ne}
+
+
+def compare_oracle(opname, a, b):
+    """a <op> b natively against the comparison of the denoted quantities (float64)"""
+    import pint
+
+    np = _np()
+    osy = _os()
+    qa, qb = phys(a), phys(b)
+    try:
+        expected = CMPOPS[opname](qa.magnitude, qb.to(qa.units).magnitude)
+        exp_exc = None
+    except pint.DimensionalityError as e:
+        expected, exp_exc = None, e
+    try:
+        res = CMPOPS[opname](a, b)
+        got_exc = None
+    except pint.DimensionalityError as e:
+        res, got_exc = None, e
+    if exp_exc is not None or got_exc is not None:
+        return (exp_exc is None) == (got_exc is None), "expected %s got %s" % (
+            "raise" if exp_exc else "value", "raise" if got_exc else "value")
+    if not isinstance(res, osy.Array):
+        return False, "result is %r" % (type(res),)
+    ok = (res.dtype == bool and str(res.unit) == "dimensionless" and res.shape == np.shape(expected)
+          and bool(np.array_equal(res.values, expected)))
+    return ok, "got %s [%s] expected %s" % (np.ravel(res.values)[:6], res.unit, np.ravel(expected)[:6])
+
+
+def replay_compare(case, model, rec):
+    osy = _os()
+    np = _np()
+    parts = (case or "").split(",")
+    opname = parts[0]
+    kind = parts[1] if len(parts) > 2 else "Array"
+    shapes = parts[-1].split("-") if "-" in parts[-1] else ["1d", "1d"]
+    tried = []
+    for (da, db, x, y) in [(d, d, ux, uy) for d in ("float64", "float32", "int32")
+                           for ux, uy in (("m", "cm"), ("cm", "m"), ("m", "m"), ("m", "s"))]:
+        va = model_array(model, "a", shapes[0], da)
+        vb = model_array(model, "b", shapes[1], db)
+        a = osy.Array(values=va, unit=x)
+        b = build_operand(kind, vb, y)
+        try:
+            ok, detail = compare_oracle(opname, a, b)
+        except Exception as e:
+            ok, detail = False, "exception %r" % (e,)
+        tried.append({"units": (x, y), "dtype": da, "ok": ok})
+        if not ok:
+            return {"reproduced": True, "input": {"op": opname, "a": va.tolist(), "a_unit": x, "b": vb.tolist(),
+                                                  "b_unit": y, "b_kind": kind, "dtype": da}, "observed": detail}
+    # values that differ only after conversion
+    a = osy.Array(values=np.array([1.0, 1.0, 0.99]), unit="m")
+    b = osy.Array(values=np.array([99.0, 100.0, 99.0]), unit="cm")
+    if opname in CMPOPS:
+        ok, detail = compare_oracle(opname, a, b)
+        if not ok:
+            return {"reproduced": True, "input": "1 m vs 99 cm family", "observed": detail}
+    return {"reproduced": False, "tried": tried[:4]}
+
+
+def replay_logic(case, model, rec):
+    osy = _os()
+    np = _np()
+    ops = {"__and__": np.logical_and, "__or__": np.logical_or, "__xor__": np.logical_xor}
+    a = osy.Array(values=np.array([True, True, False, False]))
+    b = osy.Array(values=np.array([True, False, True, False]))
+    op = (case or "").split(",")[0]
+    if op == "__invert__":
+        r = ~a
+        ok = bool(np.array_equal(r.values, np.logical_not(a.values)))
+    else:
+        r = getattr(a, op)(b)
+        ok = bool(np.array_equal(r.values, ops[op](a.values, b.values)))
+    ok = ok and r.dtype == bool and str(r.unit) == "dimensionless"
+    return {"reproduced": not ok, "observed": str(r.values)}
+
+
+def replay_vector_to(case, model, rec):
+    osy = _os()
+    np = _np()
+    nvec = int((case or "nvec=3").split("=")[1])
+    comps = [osy.Array(values=np.array([1.0, 2.0, 3.0]) * (k + 1), unit="m") for k in range(nvec)]
+    v = osy.Vector(*comps)
+    r = v.to("cm")
+    for c, orig in zip("xyz", comps):
+        got = getattr(r, c)
+        if got is None or not np.allclose(got.values, orig.values * 100) or got.unit != osy.units("cm"):
+            return {"reproduced": True, "input": {"nvec": nvec}, "observed": "component %s: %s" % (c, got)}
+    return {"reproduced": False}
+
+
+# --------------------------------------------------------------------------------------
+# catalogue oracle (C10): numpy function on osyris Arrays vs the same function on pint Quantities
+# --------------------------------------------------------------------------------------
+SAME_UNARY = ["negative", "absolute", "sum", "mean", "amin", "amax", "median", "std", "cumsum", "sort", "diff"]
+SAME_BINARY = ["add", "subtract", "maximum", "minimum", "hypot"]
+COMPARISONS = ["less", "less_equal", "greater", "greater_equal", "equal", "not_equal"]
+TRANSFORM_UNARY = {"sqrt": 0.5, "square": 2, "cbrt": 1.0 / 3.0, "reciprocal": -1}
+
+
+def catalogue_call(fname, args, kwargs=None):
+    """(ok, detail) for np.<fname>(*args) on osyris operands against pint"""
+    import pint
+
+    np = _np()
+    osy = _os()
+    f = getattr(np, fname)
+    kwargs = kwargs or {}
+    pargs = [phys(a) if isinstance(a, osy.Array) else a for a in args]
+    with np.errstate(all="ignore"):
+        try:
+            if fname in TRANSFORM_UNARY:
+                expected = pargs[0] ** TRANSFORM_UNARY[fname]
+            elif fname in COMPARISONS:
+                expected = CMPOPS[fname](pargs[0].magnitude if hasattr(pargs[0], "magnitude") else pargs[0],
+                                         pargs[1].to(pargs[0].units).magnitude if hasattr(pargs[1], "to") else pargs[1])
+            else:
+                expected = f(*pargs, **kwargs)
+            exp_exc = None
+        except pint.DimensionalityError as e:
+            expected, exp_exc = None, e
+        try:
+            res, got_exc = f(*args, **kwargs), None
+        except pint.DimensionalityError as e:
+            res, got_exc = None, e
+        except Exception as e:
+            return False, "exception %r" % (e,)
+    if exp_exc is not None or got_exc is not None:
+        return (exp_exc is None) == (got_exc is None), "expected %s got %s" % (
+            "raise" if exp_exc else "value", "raise" if got_exc else "value")
+    if not isinstance(res, osy.Array):
+        return False, "result is %r" % (type(res),)
+    if fname in COMPARISONS or fname in ("isfinite", "isnan", "isinf"):
+        e = np.asarray(expected.magnitude if hasattr(expected, "magnitude") else expected)
+        ok = str(res.unit) == "dimensionless" and bool(np.array_equal(res.values, e))
+        return ok, "got %s [%s] expected %s" % (np.ravel(res.values)[:4], res.unit, np.ravel(e)[:4])
+    if not hasattr(expected, "units"):
+        expected = expected * osy.units("dimensionless")
+    return compare(res, expected)
+
+
+def replay_catalogue(case, model, rec):
+    osy = _os()
+    np = _np()
+    parts = (case or "").split(",")
+    fname = parts[0]
+    tried = []
+    for dtype in ("float32", "int32", "float64"):
+        va = model_array(model, "a", "2d" if "axis" in (case or "") else "1d", dtype)
+        vb = model_array(model, "b", "1d", dtype)
+        a = osy.Array(values=va, unit="m")
+        args, kw = [a], {}
+        if "axis=0" in case:
+            kw = {"axis": 0}
+        if "axis=1" in case:
+            kw = {"axis": 1}
+        if fname == "power":
+            k = float(parts[1].split("=")[1])
+            args.append(int(k) if k == int(k) else k)
+            if k < 0 and "int" in dtype:
+                continue
+        elif "Array-Array" in case or fname == "concatenate" or "out=" in case:
+            args.append(osy.Array(values=vb, unit="m" if fname not in ("multiply", "divide") else "s"))
+        elif "Array-number" in case:
+            args.append(2.0)
+        elif "Array-ndarray" in case:
+            args.append(vb)
+        elif "Array-Quantity" in case:
+            args.append(2.0 * osy.units("s"))
+        elif "number-Array" in case:
+            args = [2.0, a]
+        if fname.startswith("logical") or (fname == "reciprocal" and "int" in dtype):
+            continue
+        if fname == "concatenate":
+            try:
+                res = np.concatenate(args)
+                ok, detail = compare(res, np.concatenate([phys(x) for x in args]))
+            except Exception as e:
+                ok, detail = False, repr(e)
+        elif "out=" in case:
+            continue
+        else:
+            ok, detail = catalogue_call(fname, args, kw)
+        tried.append({"dtype": dtype, "ok": ok, "detail": detail})
+        if not ok:
+            return {"reproduced": True, "input": {"func": fname, "case": case, "dtype": dtype, "a": va.tolist()},
+                    "observed": detail}
+    return {"reproduced": False, "tried": tried}
+
+
+def replay_mixed(case, model, rec):
+    osy = _os()
+    np = _np()
+    fname, rel = (case or "add,compatible").split(",")
+    a = osy.Array(values=np.array([1.0, 2.0, 3.0]), unit="m")
+    b = osy.Array(values=np.array([10.0, 20.0, 300.0]), unit="cm" if rel == "compatible" else "s")
+    if fname == "concatenate":
+        import pint
+
+        try:
+            res = np.concatenate([a, b])
+        except pint.DimensionalityError:
+            return {"reproduced": rel == "compatible", "observed": "raised"}
+        if rel != "compatible":
+            return {"reproduced": True, "input": "concatenate([m, s])", "observed": "%s %s" % (res.values, res.unit)}
+        ok, detail = compare(res, np.concatenate([phys(a), phys(b)]))
+    else:
+        ok, detail = catalogue_call(fname, [a, b])
+    return {"reproduced": not ok, "input": {"func": fname, "a": "[1,2,3] m", "b": "[10,20,300] %s" % b.unit},
+            "observed": detail}
+
+
+def replay_where(case, model, rec):
+    osy = _os()
+    np = _np()
+    a = osy.Array(values=np.array([1.0, 2.0, 3.0]), unit="m")
+    b = osy.Array(values=np.array([10.0, 20.0, 30.0]), unit="m")
+    c = np.array([True, False, True])
+    if "Array" in (case or ""):
+        c = osy.Array(values=c)
+    r = np.where(c, a, b)
+    ok = isinstance(r, osy.Array) and r.unit == osy.units("m") and np.array_equal(r.values, [1.0, 20.0, 3.0])
+    return {"reproduced": not ok, "input": "np.where(%s, a_m, b_m)" % type(c).__name__,
+            "observed": "%s [%s]" % (getattr(r, "values", r), getattr(r, "unit", None))}
+
+
+# --------------------------------------------------------------------------------------
+# C17 native oracles
+# --------------------------------------------------------------------------------------
+IOPS = {"__iadd__": operator.iadd, "__isub__": operator.isub, "__imul__": operator.imul,
+        "__itruediv__": operator.itruediv}
+PLAIN = {"__iadd__": operator.add, "__isub__": operator.sub, "__imul__": operator.mul, "__itruediv__": operator.truediv}
+
+
+def inplace_oracle(opname, dtype, kind, alias, ux="m", uy="cm"):
+    np = _np()
+    osy = _os()
+    import pint
+
+    vx = np.array([2, 4, 6, 8]).astype(dtype)
+    x = osy.Array(values=vx.copy(), unit=ux)
+    if alias == "same":
+        y = x
+    elif alias == "view":
+        y = x[:]
+    else:
+        y = build_operand(kind, np.array([1, 2, 4, 8]).astype(dtype), uy)
+    holder2 = osy.Datagroup()
+    holder2["x"] = x
+    with np.errstate(all="ignore"):
+        try:
+            expected = PLAIN[opname](phys(osy.Array(values=vx.copy(), unit=ux)),
+                                     phys(y) if alias == "disjoint" else phys(osy.Array(values=vx.copy(), unit=ux)))
+        except pint.DimensionalityError:
+            expected = None
+        ybefore = phys(y) if alias == "disjoint" else None
+        try:
+            r = IOPS[opname](x, y)
+        except pint.DimensionalityError:
+            return expected is None, "raised"
+        except TypeError as e:  # numpy same-kind casting refusal: outside the statement
+            return True, "numpy refused: %s" % e
+    if expected is None:
+        return False, "no exception for incompatible units"
+    if r is not x or holder2["x"] is not x:
+        return False, "result is a new object"
+    ok, detail = compare(holder2["x"], expected, rtol=1e-3 if "int" in dtype else 1e-5)
+    if "int" in dtype and not ok:
+        # integer dtypes: representability is a precondition of the statement
+        return True, "not representable in %s" % dtype
+    if ok and ybefore is not None:
+        ok2, d2 = compare(osy.Array(values=np.asarray(phys(y).magnitude), unit=phys(y).units), ybefore)
+        if not ok2:
+            return False, "rhs modified: " + d2
+    return ok, detail
+
+
+def replay_inplace(case, model, rec):
+    parts = (case or "__iadd__,Array,disjoint").split(",")
+    if parts[-1] == "out=":
+        opname = {"add": "__iadd__", "subtract": "__isub__", "multiply": "__imul__", "divide": "__itruediv__"}[parts[0]]
+        kind, alias = "Array", "disjoint"
+    else:
+        opname, kind, alias = parts
+    for dtype in ("float32", "float64", "int32"):
+        if "int" in dtype and opname == "__itruediv__":
+            continue
+        for ux, uy in (("m", "cm"), ("m", "m"), ("m", "s")):
+            ok, detail = inplace_oracle(opname, dtype, kind, alias, ux, uy)
+            if not ok:
+                return {"reproduced": True, "input": {"op": opname, "dtype": dtype, "kind": kind, "alias": alias,
+                                                      "units": [ux, uy]}, "observed": detail}
+    return {"reproduced": False}
+
+
+def replay_inplace_vector(case, model, rec):
+    np = _np()
+    osy = _os()
+    opname, nv, kind = (case or "__iadd__,nvec=3,Vector").split(",")
+    n = int(nv.split("=")[1])
+    comps = [osy.Array(values=np.array([1.0, 2.0, 3.0]) * (k + 1), unit="m") for k in range(n)]
+    v = osy.Vector(*comps)
+    held = v
+    olds = [getattr(v, c) for c in "xyz"[:n]]
+    before = [phys(osy.Array(values=o.values.copy(), unit=o.unit)) for o in olds]
+    if kind == "Vector":
+        w = osy.Vector(*[osy.Array(values=np.array([10.0, 20.0, 30.0]), unit="cm") for _ in range(n)])
+        pw = [phys(getattr(w, c)) for c in "xyz"[:n]]
+    elif kind == "Array":
+        w = osy.Array(values=np.array([10.0, 20.0, 30.0]), unit="cm")
+        pw = [phys(w)] * n
+    else:
+        w = 2.0
+        pw = [phys(w)] * n
+    import pint
+
+    try:
+        r = IOPS[opname](v, w)
+    except pint.DimensionalityError:
+        return {"reproduced": opname in ("__imul__", "__itruediv__") or kind != "number_float", "observed": "raised"}
+    for k, c in enumerate("xyz"[:n]):
+        try:
+            exp = PLAIN[opname](before[k], pw[k])
+        except pint.DimensionalityError:
+            return {"reproduced": True, "observed": "no exception"}
+        for who, obj in (("held", getattr(held, c)), ("result", getattr(r, c))):
+            ok, detail = compare(obj, exp)
+            if not ok:
+                return {"reproduced": True, "input": case, "observed": "%s component %s: %s" % (who, c, detail)}
+    return {"reproduced": False}
+
+
+def replay_copy(case, model, rec):
+    import copy
+
+    np = _np()
+    osy = _os()
+    t, how = (case or "Array,copy").split(",")
+    if t == "Array":
+        src = osy.Array(values=np.array([1.0, 2.0, 3.0]), unit="m", name="a")
+        leaves = lambda o: [o]  # noqa: E731
+    else:
+        src = osy.Vector(*[osy.Array(values=np.array([1.0, 2.0, 3.0]) * k, unit="m") for k in (1, 2, 3)], name="v")
+        leaves = lambda o: [o.x, o.y, o.z]  # noqa: E731
+    r = {"copy": lambda: src.copy(), "__copy__": lambda: copy.copy(src), "__deepcopy__": lambda: copy.deepcopy(src)}[how]()
+    bad = []
+    if r is src or r.name != src.name:
+        bad.append("object/name")
+    for p, q in zip(leaves(src), leaves(r)):
+        if np.shares_memory(p._array, q._array) or q.unit != p.unit or not np.array_equal(p.values, q.values):
+            bad.append("leaf shares memory or differs")
+    leaves(r)[0]._array[:] = -1
+    if (leaves(src)[0].values == -1).any():
+        bad.append("write to copy seen in source")
+    return {"reproduced": bool(bad), "observed": bad}
+
+
+def replay_view(case, model, rec):
+    np = _np()
+    osy = _os()
+    a = osy.Array(values=np.arange(6.0), unit="m", name="a")
+    s = a[1:4] if (case or "slice") == "slice" else a[::2]
+    ok = s is not a and np.shares_memory(s._array, a._array) and s.unit == a.unit and s.name == a.name
+    s._array[:] = 7.0
+    ok = ok and (a.values == 7.0).sum() == 3
+    return {"reproduced": not ok, "observed": str(a.values)}
+
+
+def replay_container_copy(case, model, rec):
+    import copy
+
+    np = _np()
+    osy = _os()
+    g = osy.Datagroup()
+    a = osy.Array(values=np.array([1.0, 2.0]), unit="m")
+    v = osy.Vector(osy.Array(values=np.array([1.0, 2.0]), unit="s"), osy.Array(values=np.array([3.0, 4.0]), unit="s"))
+    g["a"], g["v"] = a, v
+    src = g
+    if (case or "").startswith("Dataset"):
+        src = osy.Dataset()
+        src["g"] = g
+        src.meta["time"] = 1.0
+    deep = (case or "").endswith("deepcopy")
+    r = copy.deepcopy(src) if deep else src.copy()
+    rg = r["g"] if src is not g else r
+    bad = []
+    if r is src:
+        bad.append("same container")
+    if list(rg.keys()) != ["a", "v"]:
+        bad.append("keys")
+    if deep:
+        if rg["a"] is a or np.shares_memory(rg["a"]._array, a._array) or rg["v"] is v \
+                or np.shares_memory(rg["v"].x._array, v.x._array):
+            bad.append("deepcopy shares members")
+    else:
+        if rg["a"] is not a or rg["v"] is not v:
+            bad.append("shallow copy does not share members")
+    if src is not g and (r.meta != src.meta or r.meta is src.meta):
+        bad.append("meta")
+    return {"reproduced": bool(bad), "observed": bad}
